@@ -573,6 +573,34 @@ class Rewriter:
         self.hit("R12-" + name, n)
         return n
 
+    # R13 -----------------------------------------------------------------
+    def take_fragment(self, start, sig, tail):
+        """Keep ONE statement of the function: from the literal `start` (must occur once) to the `;`
+        that ends that statement at the same nesting depth; emit `sig { statement tail }`."""
+        idxs = [mm.start() for mm in re.finditer(re.escape(start), self.text)]
+        if len(idxs) != 1:
+            raise ExtractError("%s: R13 start %r found %d times" % (self.label, start, len(idxs)))
+        m = mask(self.text)
+        k, depth = idxs[0], 0
+        while k < len(m):
+            ch = m[k]
+            if ch in "([{":
+                depth += 1
+            elif ch in ")]}":
+                depth -= 1
+                if depth < 0:
+                    raise ExtractError("%s: R13: statement at %r does not end with `;`" % (self.label, start))
+            elif ch == ";" and depth == 0:
+                break
+            k += 1
+        if k >= len(m):
+            raise ExtractError("%s: R13: no end of statement after %r" % (self.label, start))
+        stmt = self.text[idxs[0]:k + 1]
+        dropped = self.text.count("\n") - stmt.count("\n")
+        self.text = "%s {\n        %s\n        %s\n    }" % (sig, stmt, tail)
+        self.hit("R13-fragment")
+        self.hit("R13-lines-dropped", dropped)
+
     # R11 -----------------------------------------------------------------
     def hoist_closure(self, anchor, call):
         """`ANCHOR { || { BODY } }()` (a closure that is invoked on the spot, used by the code to run
